@@ -1,7 +1,7 @@
 from contracts import subkind, unionsimp, tdjoin
 
 def build(tier):
-    return dict(targets=subkind.targets(tier) + unionsimp.targets(tier) + unionsimp.targets_contract(tier) + unionsimp.targets_lemma(tier) + tdjoin.targets(tier) + tdjoin.targets_split(tier) + tdjoin.targets_overlap(tier),
+    return dict(targets=subkind.targets(tier) + unionsimp.targets(tier) + unionsimp.targets_contract(tier) + unionsimp.targets_lemma(tier) + tdjoin.targets(tier) + tdjoin.targets_split(tier) + tdjoin.targets_overlap(tier) + tdjoin.targets_meet(tier) + tdjoin.targets_mid(tier),
                 assumptions=["subtype_context.options (extra_checks, strict_concatenate) is read under protocol/callable comparison but is not part of the cache key: assumed equal for all subtype queries of one build (per-module differences are not examined)",
                              "entries are recorded only outside active assumption frames: not decided",
                              "is_proper_subtype, true_or_false and type equality (__eq__/__hash__ of Instance and LiteralType) are under assumed contracts in the union-simplification target: arbitrary booleans / an equivalent type with wider truthiness; the lattice relation itself (subtypes.py, join.py, meet.py visitors) is not under contract",
